@@ -94,8 +94,10 @@ def cmp_case(draw, tier="quick"):
     n = draw(st.integers(1, 6))
     k = draw(st.sampled_from(CMP_KINDS))
     a = draw(V.column(kind=k, min_size=n, max_size=n))[1]
-    b = draw(V.column(kind=k, min_size=n, max_size=n))[1]
-    return {"k": k, "a": a, "b": b, "scalar": draw(V.SCALARS[k]), "iso": draw(st.sampled_from(["2020-02-28", "1999-01-01", "2030-12-31"]))}
+    # mostly the same kind on both sides; sometimes another kind (== and != are defined between any two Python values)
+    kb = k if draw(st.integers(0, 3)) else draw(st.sampled_from(CMP_KINDS))
+    b = draw(V.column(kind=kb, min_size=n, max_size=n))[1]
+    return {"k": k, "kb": kb, "a": a, "b": b, "scalar": draw(V.SCALARS[k]), "iso": draw(st.sampled_from(["2020-02-28", "1999-01-01", "2030-12-31"]))}
 
 
 def run_cmp(case, ctx):
@@ -103,11 +105,21 @@ def run_cmp(case, ctx):
     if all(x is None for x in a) and False:
         return
     va = S.Vector(list(a))
+    kb = case.get("kb", k)
+    numeric = {"bool", "int", "float"}
     for name, op in CMP:
         if k == "complex" and name not in ("eq", "ne"):
             continue
-        forms = [("vector", S.Vector(list(b)), b), ("list", list(b), b), ("tuple", tuple(b), b),
-                 ("scalar", case["scalar"], [case["scalar"]] * len(a)), ("self", va, a)]
+        cross = kb != k and not (k in numeric and kb in numeric)
+        if cross and name not in ("eq", "ne"):
+            cross_forms = []          # ordering between unrelated kinds is a Python TypeError: outside the statement
+        else:
+            cross_forms = [("vector", S.Vector(list(b)), b), ("list", list(b), b), ("tuple", tuple(b), b)]
+        if cross and ({k, kb} == {"date", "datetime"} or ({k, kb} & {"date", "datetime"} and "str" in (k, kb))):
+            cross_forms = []          # temporal vs str: serif parses the text as an ISO date (its own, documented feature)
+        if cross and {k, kb} == {"date", "datetime"}:
+            cross_forms = []          # date vs datetime vectors dispatch differently by operand order (see C07 assumptions)
+        forms = cross_forms + [("scalar", case["scalar"], [case["scalar"]] * len(a)), ("self", va, a)]
         if k == "date" and any(x is not None for x in a):
             forms.append(("iso-string", case["iso"], [case["iso"]] * len(a)))
         for form, rhs, ys in forms:
